@@ -64,6 +64,10 @@ CATALOGUE = [
     # trying non-leaf nodes against it while flattening must not leave the name bound to their structure
     ("tuple", [("spytree", ARR("a"), "C", 2), ARR("b")]),
     ("tuple", [("spytree", ("int",), "C", 2), ("str",)]),
+    # a NamedTuple CLASS as leaf type: its field annotations are part of the type
+    ("ntclass", [ARR("a"), ARR("a")]),
+    ("ntclass", [ARR("a b"), ARR("b", "Int")]),
+    ("union", [("ntclass", [("int",), ARR("*v")]), ARR("a")]),
 ]
 
 
@@ -82,7 +86,7 @@ def required_counters(tier):
         "law.nested": 500,
         "law.bare": 500,
         "bindings_compared": 1000,
-        "L.pep604": 50, "L.arrnode": 100, "hostile_values": 16, "identity_cases": 16,
+        "L.pep604": 50, "L.arrnode": 100, "L.ntclass": 100, "annotation_built_while_checking_disabled": 100, "hostile_values": 16, "identity_cases": 16,
     }
 
 
@@ -122,6 +126,8 @@ def leaf_gen(L, single, variadic):
             return None if rng.random() < 0.3 else mk(rng, L[1])
         if k == "arr":
             return arr_for(rng, L[2], L[1])
+        if k == "ntclass":
+            return LT.nt_class(L)(*[mk(rng, x) for x in L[1]])
         if k == "spytree":
             return tuple(mk(rng, L[1]) for _ in range(L[3]))
         if k == "arrnode":
@@ -172,6 +178,9 @@ def run_case(rec, rng, rngkey=None):
     L = rng.choice(CATALOGUE)
     has_arr = LT.has_array(L)
     r = rng.random()
+    window = rng.random() < 0.1
+    if window:
+        rec.count("annotation_built_while_checking_disabled")
 
     def body(variant):
         """variant: 'plain' | 'nested' ; returns (got, bindings)"""
@@ -186,7 +195,14 @@ def run_case(rec, rng, rngkey=None):
         else:
             x = GT.gen_tree(rr, mk, depth=rr.choice((1, 2, 3, 4)), fanout=3, p_leaf=0.3)
         T = LT.build(L)
-        ann = jaxtyping.PyTree[T] if variant == "plain" else jaxtyping.PyTree[jaxtyping.PyTree[T]]
+        if window:
+            # the annotation is BUILT while checking is switched off (and used after it is on again)
+            jaxtyping.config.update("jaxtyping_disable", True)
+        try:
+            ann = jaxtyping.PyTree[T] if variant == "plain" else jaxtyping.PyTree[jaxtyping.PyTree[T]]
+        finally:
+            if window:
+                jaxtyping.config.update("jaxtyping_disable", False)
         got = real.check(x, ann)
         b = real.bindings()
         bare = real.check(x, jaxtyping.PyTree)
